@@ -125,6 +125,21 @@ def ackDelayOverflows (lvl exp : Nat) (b : Bytes) : Bool :=
     else false
   | none => false
 
+/-- RFC 9000 §19.3 / §18.2: the ACK Delay field counts units of 2^ack_delay_exponent µs; the peer's
+    exponent applies to 1-RTT packets, the default 3 to Initial and Handshake. `some ns` when the
+    first frame of `b` is an ACK whose delay fits a signed 64-bit nanosecond count. -/
+def ackDelaySpecNs (lvl exp : Nat) (b : Bytes) : Option Nat :=
+  match frameTypeOf (b.length + 1) b with
+  | some (t, rest) =>
+    if t = 0x02 ∨ t = 0x03 then
+      match takeSpecN 2 rest with
+      | some ([_, delay], _) =>
+        let e := if lvl = 4 then exp else 3
+        if delay * 2 ^ e * 1000 < 2 ^ 63 then some (delay * 2 ^ e * 1000) else none
+      | _ => none
+    else none
+  | none => none
+
 /-- more ACK ranges than the encoder writes (`MaxNumAckRanges`) -/
 def ackRangeCountAbove (limit : Nat) (b : Bytes) : Bool :=
   match frameTypeOf (b.length + 1) b with
